@@ -6,8 +6,9 @@ cd "$(dirname "$0")"
 export GOFLAGS=-mod=mod GOPROXY=off GOSUMDB=off GOTOOLCHAIN=local
 mkdir -p .work evidence
 ( cd coq && find . -name '*.vo' -o -name '*.vok' -o -name '*.vos' -o -name '*.glob' -o -name '.*.aux' | xargs rm -f; rm -f model.ml model.mli )
-if [ -f tools/gen_params.py ]; then python3 tools/gen_params.py /repo coq/Generated/Params.v; fi
-( cd coq && ./mk.sh )
+cp /repo/go.sum harness/go.sum
+( cd harness && CGO_ENABLED=0 go build -tags verif -o harness . && ./harness params /repo > ../coq/Generated/Params.v )
+( cd coq && ./mk.sh ) || echo 'WARNING: some Coq files did not build; the checks of the affected properties will report it'
 cp coq/model.ml coq/model.mli ocaml/
 ( cd ocaml && ocamlfind ocamlopt -w -a -O3 model.mli model.ml driver.ml -o runner )
 cp /repo/go.sum harness/go.sum
